@@ -169,7 +169,7 @@ def gen_response(tape, method='GET', allow_truncate=False, allow_surplus=True, a
     r = Resp()
     rng = tape.subrng('resp.rng')
     r.method = method
-    status = tape.weighted([(8, 200), (1, 404), (1, 206), (1, 500), (1, 204), (1, 304), (1, 301), (1, 100), (1, 401)], 'status')
+    status = tape.weighted([(8, 200), (1, 404), (1, 206), (1, 500), (1, 204), (1, 304), (1, 301), (1, 100), (1, 401), (1, 205)], 'status')
     r.status = status
     nobody = method == 'HEAD' or status in (204, 304) or 100 <= status < 200
     version = 'HTTP/1.1' if not tape.chance(1, 8, 'http10') else 'HTTP/1.0'
@@ -186,6 +186,8 @@ def gen_response(tape, method='GET', allow_truncate=False, allow_surplus=True, a
         status_line = ('%s %d' % (version, status)).encode('latin-1')
     # payload + content coding
     payload = b'' if nobody else make_payload(tape, rng, big_ok)
+    if status == 205:
+        payload = b''       # 205 Reset Content has no content, but - unlike 204/304 - it is framed like any response (RFC 7231 6.3.6)
     coding = 'identity'
     if allow_coding and not nobody and tape.chance(2, 5, 'coded'):
         coding = tape.choice(('gzip', 'deflate-zlib', 'deflate-raw', 'gzip', 'deflate-zlib', 'deflate-raw', 'gzip-identity'), 'coding')
